@@ -132,6 +132,14 @@ def _run_case_first_call(case):
             check_collection('a slice of the full dataset through a sliced dataset', c, labels(eta, (1,)))
         except LibraryRaised as err:
             rec.check(False, f"{fp}/raised", "plotting a slice of the full dataset through a sliced dataset raised", 'PolyCollection', str(err))
+    # a variable that describes the range of ALL its values (COARDS / NOAA `actual_range`): a slice has its own limits
+    described = ds['eta'].copy()
+    described.attrs['actual_range'] = np.array([-1.0e6, 1.0e6])
+    described.attrs['valid_range'] = np.array([-2.0e6, 2.0e6])
+    c = collection_of('slice of a variable carrying actual_range', described.isel({time_dim: 0}))
+    if c is not None:
+        rec.nontrivial('actual-range')
+        check_collection('slice of a variable carrying actual_range', c, labels(eta, (0,)))
     # a slice of a variable with extra dimensions
     for t in range(ds.sizes[time_dim]):
         c = collection_of(f'eta time {t}', ds['eta'].isel({time_dim: t}))
@@ -237,6 +245,20 @@ def _run_case_first_call(case):
             pass
     except LibraryRaised as err:
         rec.check(False, f"{fp}/animation-raised", "animate_on_figure raised", 'animation', str(err))
+    # a plain plot made after an animation in the same process: its own values, its own limits
+    try:
+        figure = Figure()
+        lib(convention.plot_on_figure, figure, ds['botz'], coast=False, gridlines=False)
+        collections = [c for axes in figure.axes for c in axes.collections if hasattr(c, 'get_paths') and len(c.get_paths()) == len(valid)]
+        if rec.check(len(collections) >= 1, f"{fp}/plot-collection", "plot_on_figure after an animation: no polygon collection", 1, len(collections)):
+            values = np.asarray([labels(botz, ())[n] for n in valid], dtype='float64')
+            if np.nanmin(values) == np.nanmax(values):
+                # (matplotlib's colour bar widens a range of zero width by itself)
+                check_collection('plot_on_figure after an animation', collections[0], labels(botz, ()), clim=collections[0].get_clim())
+            else:
+                check_collection('plot_on_figure after an animation', collections[0], labels(botz, ()))
+    except LibraryRaised as err:
+        rec.check(False, f"{fp}/raised", "plot_on_figure after an animation raised", 'figure', str(err))
     rec.outcome([truth.family, nface, len(holes)])
     return rec.result()
 
